@@ -144,13 +144,15 @@ pub(crate) struct Recipe {
     tail: usize,
     val: bool,
     g: usize,
-    alt: usize,
+    pub(crate) alt: usize,
     perm: usize,
     unused: usize,
     dup: bool,
     nullvia_value: bool,
     runsplit: bool,
-    cut: usize,
+    pub(crate) cut: usize,
+    /// never store a physical alternate (-0.0 for +0.0): for checks in which the alternates are different values
+    pub(crate) noalt: bool,
 }
 
 pub(crate) fn recipe(j: &Value) -> Recipe {
@@ -167,6 +169,7 @@ pub(crate) fn recipe(j: &Value) -> Recipe {
         nullvia_value: j["nullvia"] == "value",
         runsplit: j["runsplit"].as_bool().unwrap_or(false),
         cut: u("cut"),
+        noalt: false,
     }
 }
 
@@ -237,7 +240,7 @@ fn build_dict(base: &str, col: &[usize], r: &Recipe, small: bool) -> R<ArrayRef>
     if r.nullvia_value || entries.is_empty() {
         entries.push(0);
     }
-    let vals: Vec<ScalarValue> = entries.iter().enumerate().map(|(k, &e)| if e == 0 { null.clone() } else { pick(&pool, e, (r.alt + k) % 2) }).collect();
+    let vals: Vec<ScalarValue> = entries.iter().enumerate().map(|(k, &e)| if e == 0 { null.clone() } else { pick(&pool, e, if r.noalt { 0 } else { (r.alt + k) % 2 }) }).collect();
     let values = ScalarValue::iter_to_array(vals).map_err(es)?;
     let keys: Vec<Option<i64>> = col
         .iter()
@@ -276,7 +279,7 @@ fn build_ree(base: &str, col: &[usize], r: &Recipe) -> R<ArrayRef> {
             split_done = true;
         }
     }
-    let vals: Vec<ScalarValue> = ends.iter().enumerate().map(|(k, &e)| if ext[e - 1] == 0 { null.clone() } else { pick(&pool, ext[e - 1], (r.alt + k) % 2) }).collect();
+    let vals: Vec<ScalarValue> = ends.iter().enumerate().map(|(k, &e)| if ext[e - 1] == 0 { null.clone() } else { pick(&pool, ext[e - 1], if r.noalt { 0 } else { (r.alt + k) % 2 }) }).collect();
     let values = ScalarValue::iter_to_array(vals).map_err(es)?;
     let run_ends = Int32Array::from(ends.iter().map(|&e| e as i32).collect::<Vec<_>>());
     let ra = RunArray::<Int32Type>::try_new(&run_ends, &values).map_err(es)?;
@@ -311,7 +314,7 @@ pub(crate) fn tokens_opt(arr: &ArrayRef, normalise: bool) -> R<Vec<String>> {
 
 fn expected_tokens(ty: &str, col: &[usize]) -> R<Vec<String>> {
     let (_, base) = family(ty);
-    let plain = Recipe { off: 0, tail: 0, val: false, g: 1, alt: 0, perm: 0, unused: 0, dup: false, nullvia_value: false, runsplit: false, cut: 0 };
+    let plain = Recipe { off: 0, tail: 0, val: false, g: 1, alt: 0, perm: 0, unused: 0, dup: false, nullvia_value: false, runsplit: false, cut: 0, noalt: false };
     // NULL slots hold pool value 1 under the validity mask; tokens() reports them as NULL
     tokens(&build_plain(base, col, &plain)?)
 }
